@@ -56,10 +56,14 @@ def tlv_body(f):
             return p
     return None
 
-def says_empty(atom, truth):
-    """The atom, with this truth value, says that a slice / cursor has no octets left."""
+def says_empty(atom, truth, lengths=(), subject=None):
+    """The atom, with this truth value, says that a slice / cursor has no octets left (or that an announced length - one of the
+    terms in `lengths` - is zero).  `subject` restricts what the slice may be (the content of the element, not, say, the input that
+    happens to be buffered after the header)."""
     def is_len(t):
-        return t[0] == 'call' and t[1].rsplit('::', 1)[-1] in ('input_len', 'len', 'remaining')
+        if t in lengths:
+            return True
+        return t[0] == 'call' and t[1].rsplit('::', 1)[-1] in ('input_len', 'len', 'remaining') and t[2] and (subject is None or subject(t[2][0]))
     if atom[0] == 'bin' and len(atom) == 4:
         op, a, b = atom[1], atom[2], atom[3]
         if is_len(b) and a == ('lit', 0):
@@ -68,11 +72,15 @@ def says_empty(atom, truth):
             return (op in ('Gt', 'Ne') and truth is False) or (op in ('Eq', 'Le') and truth is True)
         if is_len(a) and b == ('lit', 1):
             return (op == 'Ge' and truth is False) or (op == 'Lt' and truth is True)
-    if atom[0] == 'call' and atom[1].rsplit('::', 1)[-1] == 'is_empty':
+    if atom[0] == 'call' and atom[1].rsplit('::', 1)[-1] == 'is_empty' and atom[2] and (subject is None or subject(atom[2][0])):
         return truth is True
     if atom[0] == 'not':
-        return says_empty(atom[1], not truth)
+        return says_empty(atom[1], not truth, lengths, subject)
     return False
+
+def content_cursor(t):
+    """the content of a constructed element: (derived from) what `take(announced length)` yielded, or the loop-carried cursor over it"""
+    return t[0] == 'carried' or sem.has(t, lambda x: x[0] == 'call' and x[1] == 'nom::bytes::streaming::take') or sem.has(t, lambda x: x[0] == 'carried')
 
 def check_tlv_parser(ctx, f, R):
     """The TLV parser (the function that matches on the primitive / constructed bit), on its enumerated paths with the children loop
@@ -110,13 +118,15 @@ def check_tlv_parser(ctx, f, R):
                     if (op in ('Gt', 'Ge') and t) or (op in ('Lt', 'Le') and not t):
                         return True
         return False
+    # the announced length: what the parser hands to `take` on the paths that take the content
+    announced = {sem.strip_site(e[2][0]) for o in outs for e in o.st.ev if e[0] == 'call' and e[1] == 'nom::bytes::streaming::take' and e[2]}
     n_ok = n_err = n_it = 0
     for o in outs:
         prim = sem.variant_truth(o.st.pc, lambda v: True, 'TagStructure::Primitive', ['TagStructure::Primitive', 'TagStructure::Constructed'])
         if o.kind in ('val', 'ret') and o.val[0] == 'ctor' and o.val[1] == 'Ok':
             if prim is False:
                 n_ok += 1
-                ok = any(says_empty(a, t) for a, t in o.st.pc)
+                ok = any(says_empty(sem.strip_site(a), t, announced, content_cursor) for a, t in o.st.pc)
                 ctx.add(R + '.children-until-content-exhausted', 'constructed|%d conditions' % len(o.st.pc), loc(B.root), ok,
                         'a constructed element is returned on a path that did not leave the children loop because the content was used up (%s): '
                         'the rest of its content - one or more child elements - is silently dropped' % ', '.join(('' if t else '!') + absx.fmt(a)[:60] for a, t in o.st.pc[-2:]))
@@ -441,13 +451,21 @@ def run(ctx):
     else:
         B = hirq.Body(f, f.hir[body])
         ctx.analysed['bodies'].add(body)
-        outs = [o for o in absx.Interp(f, B, unroll=1, result_combinators=True).run() if o.kind in ('val', 'ret') and o.val[0] == 'ctor' and o.val[1] == 'Ok']
+        all_outs = absx.Interp(f, B, unroll=1, result_combinators=True).run()
+        outs = [o for o in all_outs if o.kind in ('val', 'ret') and o.val[0] == 'ctor' and o.val[1] == 'Ok']
+        announced_b4 = {sem.strip_site(e[2][0]) for o in all_outs for e in o.st.ev if e[0] == 'call' and e[1] == 'nom::bytes::streaming::take' and e[2]}
         seen = set()
         for o in outs:
             rem = o.val[2][0][1][0]
             st = o.val[2][0][1][1]
             tk = [e for e in o.st.ev if e[0] == 'call' and e[1] == 'nom::bytes::streaming::take']
             ok = len(tk) == 1
+            if not tk and any(says_empty(sem.strip_site(a), t, announced_b4, lambda x: False) for a, t in o.st.pc) and rem[0] == 'field' and rem[2] == '0' and rem[1][0] == 'variant' \
+                    and rem[1][1][0] == 'call' and rem[1][1][1] == '<indirect>' and not sem.has(rem[1][1], lambda x: x[0] == 'call' and x[1] == 'nom::bytes::streaming::take'):
+                # no content announced (length 0 on this path): the slice after the announced length is the header's own remainder
+                ctx.add('B4.remainder-after-announced-length', 'primitive=%s|empty' % sem.variant_truth(o.st.pc, lambda v: True, 'TagStructure::Primitive', ['TagStructure::Primitive', 'TagStructure::Constructed']), loc(B.root), True, '')
+                seen.add(sem.variant_truth(o.st.pc, lambda v: True, 'TagStructure::Primitive', ['TagStructure::Primitive', 'TagStructure::Constructed']))
+                continue
             if ok:
                 # remainder = .0 of the application of take(len) to the input after the header
                 ok = rem[0] == 'field' and rem[2] == '0' and rem[1][0] == 'variant' and rem[1][1][0] == 'call' and rem[1][1][1] == '<indirect>' and rem[1][1][2][0][0] == 'call' \
